@@ -36,7 +36,7 @@ Definition verdict (c : case) : Z * Z :=
   let fagree := match c_fault c with
                 | None => true
                 | Some f => writers_eqb (fo_writers f) (fo_writers fm) && (fo_open f =? fo_open fm) &&
-                            Bool.eqb (fo_stored f) (fo_stored fm)
+                            Bool.eqb (fo_stored f) (fo_stored fm) && Bool.eqb (fo_active f) (fo_active fm)
                 end in
   let fcheck := match c_fault c with None => true | Some f => fault_stop_ok f end in
   let d := if (d =? -1) && negb fagree then zlen (c_hist c) else d in
@@ -62,10 +62,10 @@ Definition mk (proj : list bool) (used : list (Z * Z)) (mapn base : Z) (r0 : rst
      c_rs0 := r0; c_w0 := w0; c_hist := h; c_fault := None |}.
 Definition mkF (proj : list bool) (used : list (Z * Z)) (mapn base : Z) (r0 : rstate)
            (w0 : list (bool * bool * bool)) (h : list (op * obs))
-           (fw : list (bool * bool * bool)) (fopen : Z) (fstored : bool) : case :=
+           (fw : list (bool * bool * bool)) (fopen : Z) (fstored factive : bool) : case :=
   {| c_cfg := {| c_proj := proj; c_used := used; c_map := mapn; c_base := base |};
      c_rs0 := r0; c_w0 := w0; c_hist := h;
-     c_fault := Some {| fo_writers := fw; fo_open := fopen; fo_stored := fstored |} |}.
+     c_fault := Some {| fo_writers := fw; fo_open := fopen; fo_stored := fstored; fo_active := factive |} |}.
 (* a case that killed the harness process before any observation could be rendered *)
 Definition crashed : case :=
   mk [] [] (-1) 0 (init_rs 0) [] [PbX 0 0].
